@@ -730,9 +730,15 @@ func finish(w *World, verifDir string, spec *PropSpec, cr *CheckResult, seed int
 		},
 		"assumptions": spec.Assumptions,
 	}
-	os.MkdirAll(filepath.Join(verifDir, "evidence"), 0o755)
+	// evidence/ only ever describes runs against /repo itself; runs against a scratch copy
+	// (seeded changes, mutants) write to evidence-scratch/ (not committed)
+	evDir := "evidence"
+	if filepath.Clean(w.repo) != "/repo" {
+		evDir = "evidence-scratch"
+	}
+	os.MkdirAll(filepath.Join(verifDir, evDir), 0o755)
 	data, _ := json.MarshalIndent(ev, "", " ")
-	os.WriteFile(filepath.Join(verifDir, "evidence", spec.ID+".json"), data, 0o644)
+	os.WriteFile(filepath.Join(verifDir, evDir, spec.ID+".json"), data, 0o644)
 	for _, l := range lines {
 		fmt.Println(l)
 	}
